@@ -268,6 +268,8 @@ func (r *Decoder) parseRoot() error {
 						return fmt.Errorf("invalid datatype: empty")
 					} else if objectMembers.Lang != nil && len(objectMembers.Lang.Content) == 0 {
 						return fmt.Errorf("invalid lang: empty")
+					} else if objectMembers.Datatype != nil && objectMembers.Datatype.Content == "http://www.w3.org/1999/02/22-rdf-syntax-ns#dirLangString" {
+						return fmt.Errorf("invalid datatype: a base direction cannot be expressed")
 					} else if objectMembers.Datatype != nil && objectMembers.Datatype.Content == string(rdfiri.LangString_Datatype) {
 						// a language-tagged string spelled with its datatype still needs, and keeps, its language
 						if objectMembers.Lang == nil {
